@@ -287,7 +287,7 @@ def explore(pid, tier, seed, replay=None):
                                           "traceback": traceback.format_exc().splitlines()[-4:]})
         if pid == "C20" and not replay:
             from harness import special
-            special.explore_c20_extra(res, dr)
+            special.explore_c20_extra(res, dr, seed)
     finally:
         dr.close()
     res["corr_obligations"] += stats.obligations
